@@ -710,3 +710,93 @@ MP_TABLE = [
       f"{_ARGS4})[0]),phi(handle_reach_logic_merge_point({_ARGS4})[1]|"
       f"handle_rotate_path({_ARGS4})[1]))",), [], []),
 ]
+
+
+# ---- Node: direction-indexed containers and the lonely merge
+_DIR_OK = ("cmp", "P:direction", "In", "['incoming','outgoing']", "1")
+_IN = ("cmp", "'incoming'", "Eq", "P:direction", "1")
+_OUT = ("cmp", "'incoming'", "Eq", "P:direction", "0")
+_MANY = ("le", "len(P:self.is_loop_kill_path)", "1", "0")
+_PATHS = "each(enumerate(P:self.outgoing_logic))"
+_ALL_KILL = ("truth", f"all(((each(get_node_as_list({_PATHS}[1])).uid In "
+             "P:leaf_nodes) for..))", "1")
+_NOT_ALL_KILL = ("truth", _ALL_KILL[1], "0")
+_IS_OP = ("cmp", "P:self.operator", "Is", "None", "0")
+NODE_TABLE: dict[str, list[tuple]] = {
+    "Node.load_logic_into_list": [
+        ("the tree is loaded for every node that is not a stub, rooted at "
+         "the node itself", "call", "_load_logic_into_logic_list", "P:self",
+         (("P:logic_tree", "phi(P:self.event_node_map_incoming|P:self."
+           "event_node_map_outgoing)", "P:direction", "P:self"),
+          ("P:logic_tree", "P:self.event_node_map_outgoing", "P:direction",
+           "P:self"),
+          ("P:logic_tree", "P:self.event_node_map_outgoing", "'outgoing'",
+           "P:self")),
+         [_DIR_OK, ("truth", "P:self.is_stub", "0")], [], ""),
+    ],
+    "Node.update_logic_list": [
+        ("outgoing logic to the outgoing list", "call", "append",
+         "P:self.outgoing_logic", ("P:node",), [_DIR_OK, _OUT], [], ""),
+        ("every outgoing path gets its kill flag (not a kill path) in the "
+         "same step", "call", "append", "P:self.is_loop_kill_path",
+         ("False",), [_DIR_OK, _OUT], [], ""),
+    ],
+    "Node.update_node_list_with_node": [
+        ("an outgoing neighbour as outgoing", "call", "append",
+         "P:self.outgoing", ("P:node",), [_DIR_OK, _OUT], [], ""),
+    ],
+    "Node.update_node_list_with_nodes": [
+        ("every neighbour is recorded, in the direction asked for", "call",
+         "update_node_list_with_node", "P:self",
+         ("each(P:nodes)", "P:direction"), [], [], ""),
+    ],
+    "Node.event_node_map_outgoing": [
+        ("outgoing neighbours by event type", "store", "",
+         "{}[each(P:self.outgoing).event_type]", ("each(P:self.outgoing)",),
+         [("cmp", "each(P:self.outgoing).event_type", "Is", "None", "0")],
+         [], ""),
+    ],
+    "Node.get_puml_event_types": [
+        ("the flags of the node are what the diagram node gets", "ret", "",
+         "", ("tuple(P:self.event_types)",),
+         [("truth", "P:self.event_types", "1")], [], ""),
+    ],
+    "Node.update_event_types": [
+        ("a flag is added to the node's flags", "call", "add",
+         "P:self.event_types", ("P:event_type",), [], [], ""),
+    ],
+    "Node.lonely_merge": [
+        ("a gate with at most one path has no lonely merge", "ret", "", "",
+         ("None",), [("le", "len(P:self.is_loop_kill_path)", "1", "1")], [],
+         ""),
+        ("the lonely merge is the path that is NOT a kill path ...", "bind",
+         "ret[0]", "",
+         ("P:self.outgoing_logic[first(enumerate(P:self.is_loop_kill_path))"
+          "[0]]",),
+         [_MANY, ("truth", "first(enumerate(P:self.is_loop_kill_path))[1]",
+                  "0"), ("cmp", "state(None)", "Is", "None", "1")], [], ""),
+        ("... and only when it is the ONLY such path: a second one means no "
+         "lonely merge", "ret", "", "", ("None",),
+         [_MANY, ("truth", "first(enumerate(P:self.is_loop_kill_path))[1]",
+                  "0"), ("cmp", "state(None)", "Is", "None", "0")], [], ""),
+    ],
+    "Node.update_loop_kill_paths_from_given_leaf_nodes": [
+        ("a path all of whose leaves are targets of kill edges is a kill "
+         "path", "store", "", f"P:self.is_loop_kill_path[{_PATHS}[0]]",
+         ("True",), [_IS_OP, _ALL_KILL], [], ""),
+        ("otherwise the path is searched further down ...", "call",
+         "update_loop_kill_paths_from_given_leaf_nodes", f"{_PATHS}[1]",
+         ("P:leaf_nodes",), [_IS_OP, _NOT_ALL_KILL], [], ""),
+        ("... and is a kill path when all ITS paths are", "store", "",
+         f"P:self.is_loop_kill_path[{_PATHS}[0]]",
+         (f"{_PATHS}[1].all_paths_are_loop_kill()",),
+         [_IS_OP, _NOT_ALL_KILL], [], ""),
+    ],
+    "Node.all_paths_are_loop_kill": [
+        ("a gate without paths is not a kill gate", "ret", "", "",
+         ("False",), [("cmp", "0", "Eq", "len(P:self.is_loop_kill_path)",
+                       "1")], [], ""),
+        ("else: all flags", "ret", "", "", ("all(P:self.is_loop_kill_path)",),
+         [("cmp", "0", "Eq", "len(P:self.is_loop_kill_path)", "0")], [], ""),
+    ],
+}
